@@ -305,6 +305,7 @@ type world struct {
 	nconn  int
 	hits   []hit
 	late   int    // waits that ran into the ceiling
+	spin   bool   // a loop of the code under test never parks
 	dead   string // harness-level failure text, reported in every following line
 }
 
@@ -312,6 +313,7 @@ type hit struct{ key, what string }
 
 var worldSeq int64
 var lateTotal int
+var spinTotal int
 
 func newWorld(max int, mode string) *world {
 	w := &world{mode: mode, max: max, rt: longTimeout, wt: longTimeout, h: &handler{byID: map[string]*cstate{}}}
@@ -375,8 +377,8 @@ func (w *world) waitFor(cond func() bool) {
 	sleep := 200 * time.Microsecond
 	for {
 		if w.mode != "tcp" {
-			if err := settleQuiet(); err != nil {
-				w.dead = "settle:" + strings.SplitN(err.Error(), "\n", 2)[0]
+			w.quiesce()
+			if w.dead != "" || w.spin {
 				return
 			}
 		}
@@ -390,11 +392,8 @@ func (w *world) waitFor(cond func() bool) {
 			if w.mode == "tcp" {
 				return
 			}
-			if err := settleQuiet(); err != nil {
-				w.dead = "settle:" + strings.SplitN(err.Error(), "\n", 2)[0]
-				return
-			}
-			if cond() {
+			w.quiesce()
+			if w.dead != "" || w.spin || cond() {
 				return
 			}
 		}
@@ -409,9 +408,7 @@ func (w *world) waitFor(cond func() bool) {
 func (w *world) settle(cond func() bool) {
 	switch w.mode {
 	case "pipe":
-		if err := settleQuiet(); err != nil {
-			w.dead = "settle:" + strings.SplitN(err.Error(), "\n", 2)[0]
-		}
+		w.quiesce()
 	case "rt":
 		// every read deadline expires: wait until all sessions are over
 		w.waitFor(func() bool {
@@ -519,6 +516,36 @@ func (w *world) connect() string {
 	return res
 }
 
+// quiesce waits for quiescence. A loop goroutine of the code under test that never parks (it spins) is a finding
+// about that code ("both session goroutines stop"), not a harness failure: it is reported as a monitor hit, the
+// world is marked, and the worker process is replaced after the script. Anything else that does not settle is a
+// harness failure.
+func (w *world) quiesce() {
+	if w.spin {
+		return
+	}
+	to := settleTimeout
+	if spinTotal > 0 {
+		to = 2 * time.Second
+	}
+	err := settleWithin(to)
+	if err == nil {
+		return
+	}
+	msg := err.Error()
+	if strings.Contains(msg, "stcp.(*Session).loop") || strings.Contains(msg, "stcp.(*Server).loopAccept") {
+		w.spin = true
+		spinTotal++
+		frames := strings.Split(msg, "\n")
+		if len(frames) > 8 {
+			frames = frames[:8]
+		}
+		w.hit("C16:loops:goroutine-never-parks", "no quiescence: a loop of the code under test keeps running instead of stopping or blocking: "+strings.Join(frames[1:], " | "))
+		return
+	}
+	w.dead = "settle:" + strings.SplitN(msg, "\n", 2)[0]
+}
+
 func (w *world) hit(key, what string) {
 	for _, h := range w.hits {
 		if h.key == key {
@@ -544,9 +571,7 @@ func (w *world) peerWrite(cs *cstate, b byte) bool {
 		_, err := cs.peer.Write([]byte{b})
 		done <- err
 	}()
-	if err := settleQuiet(); err != nil {
-		w.dead = "settle:" + strings.SplitN(err.Error(), "\n", 2)[0]
-	}
+	w.quiesce()
 	select {
 	case err := <-done:
 		return err == nil
@@ -863,7 +888,7 @@ func (w *world) destroy() {
 				if len(loopsOf()) == 0 {
 					break
 				}
-			} else if settleQuiet() == nil {
+			} else if w.spin || settleWithin(2*time.Second) == nil {
 				break
 			}
 		}
